@@ -1664,7 +1664,7 @@ theorem hist_quiet (hist : List (HEv ℚ)) (ev : HEv ℚ) (h1 : ∀ c t, ev ≠ 
   | idle t => exact ⟨rfl, rfl, rfl, rfl⟩
 
 /-- **every configuration step is accepted by the LTS**, and keeps what the observations say of the configuration -/
-theorem lts_step {a a' : A} {hist new : List (HEv ℚ)} (hi : AInv flow F size cfg Lmax P a q.time) (hmin : IsMin a q)
+theorem lts_step {a a' : A} {hist new : List (HEv ℚ)} (hi : AInv flow F size cfg Lmax P a q.time) (_hmin : IsMin a q)
     (hl : LInv flow a hist) (hs : AStep F flow size cfg P n e a q a' new) :
     LtsOK flow size cfg Lmax a hist q.time a' new ∧ LInv flow a' (hist ++ new) := by
   have hrun := hi.run
